@@ -386,17 +386,8 @@ class Runner:
             self.defs = HARNESS_DEFS + ("-DVERIF_NO_INTERNALS",)
             self.exe = ctx.harness("events_driver", "asan", self.defs)
             self.internals = False
-        # private copy of the Lean driver: other checks may relink .lake/build/bin/driver while this one runs
-        with vlib.Lock("lake"):
-            src = ctx.driver() if os.path.exists(os.path.join(vlib.LEAN, ".lake", "build", "bin", "driver")) else None
-            if src is not None:
-                self.drv = os.path.join(vlib.CACHE, "driver-c15-%d" % os.getpid())
-                shutil.copy2(src, self.drv)
-        if src is None:
-            src = ctx.driver()
-            with vlib.Lock("lake"):
-                self.drv = os.path.join(vlib.CACHE, "driver-c15-%d" % os.getpid())
-                shutil.copy2(src, self.drv)
+        # ctx.driver() already returns a private, content-addressed copy of the Lean driver
+        self.drv = ctx.driver()
         self.impl_runs = 0
         self.pool = ThreadPoolExecutor(vlib.NPROC)
 
@@ -582,11 +573,7 @@ def run(ctx):
     try:
         _run(ctx, runner)
     finally:
-        runner.pool.shutdown(wait=False)
-        try:
-            os.unlink(runner.drv)
-        except OSError:
-            pass
+        runner.pool.shutdown(wait=False)     # runner.drv is the shared content-addressed copy: never unlinked here
 
 
 def _run(ctx, runner):
@@ -718,11 +705,14 @@ def _run(ctx, runner):
                                complete=(ran == len(ex))))
 
     # ---- structured random -------------------------------------------------------------------
-    n_random = 120000 if ctx.thorough else 3000
+    n_random = 120000 if ctx.thorough else 2000
     done = 0
-    while done < n_random and reported["n"] < MAX_REPORTS:
+    import time as _time
+    # quick tier: one fresh ASan process per history is expensive on a loaded or small machine: stop adding random
+    # histories once the run has used ~2.5 minutes (the corpus and the exhaustive scope are always completed)
+    while done < n_random and reported["n"] < MAX_REPORTS and (ctx.thorough or _time.time() - ctx.t0 < 150 or done == 0):
         batch = []
-        for _ in range(min(1024, n_random - done)):
+        for _ in range(min(1024 if ctx.thorough else 256, n_random - done)):
             prof = rng.choice(list(PROFILES))
             length = rng.choice([6, 10, 16, 24, 40] if not ctx.thorough else [6, 10, 16, 24, 40, 70, 120])
             batch.append(gen_history(rng, length, rng.randint(2, 5), rng.randint(2, 6), rng.randint(3, 10),
